@@ -365,6 +365,13 @@ def elect_gate(run):
                     'or cfer\'s hasSurplus, is no longer what lean/Props/C04Loop.lean proves the model\'s election step to evaluate')
 
 
+def begin_gate(run):
+    return gen_gate(run, 'translator_begin', 'gen_begin', 'tables',
+                    'Gen.countBody / ballotInit / ballotAdvance = C02.* by rfl; start_state, finish_logs_end (lean/Props/C02Begin.lean)',
+                    'Election.count, Election.Ballot.__init__ or Ballot.advance (droop/election.py) are no longer the statements lean/Props/C02Begin.lean '
+                    'ties the model\'s start state to')
+
+
 def moves_gate(run):
     return gen_gate(run, 'translator_moves', 'gen_moves', 'table',
                     'Gen.moveTable = C06.moveTable by rfl; tstep_untouched, tstep_touched, tstep_touches_iff (lean/Props/C06Moves.lean)',
@@ -681,7 +688,7 @@ def C01(run):
 
 @prop('C02')
 def C02(run):
-    count_property(run, dict(rules=ALL, keys=['C02'], proj=proj_C02, quick=5000, thorough=150000, extra_gate=formula_gate,
+    count_property(run, dict(rules=ALL, keys=['C02'], proj=proj_C02, quick=5000, thorough=150000, extra_gate=lambda run: formula_gate(run) + begin_gate(run),
                              families=['plain', 'chains', 'big', 'on_quota', 'few_supported']))
 
 
@@ -691,7 +698,7 @@ def C03(run):
     count_property(run, dict(rules=STAT + ['wigm', 'cfer-batch', 'wigm-prf-batch', 'mpls', 'scotland'],
                              keys=['C04q', 'C06r', 'C07b', 'C07l', 'C07t', 'C07s'], proj=proj_C03, model_is_spec=True,
                              options_fn=wigm_fixed4, quick=9000, thorough=150000,
-                             extra_gate=lambda run: quota_gate(run) + formula_gate(run) + guard_gate(run) + transfer_gate(run) + keys_gate(run) + select_gate(run) + status_gate(run) + tie_gate(run) + elect_gate(run) + choice_gate(run) + moves_gate(run)))
+                             extra_gate=lambda run: quota_gate(run) + formula_gate(run) + guard_gate(run) + transfer_gate(run) + keys_gate(run) + select_gate(run) + status_gate(run) + tie_gate(run) + elect_gate(run) + choice_gate(run) + moves_gate(run) + begin_gate(run)))
 
 
 @prop('C04')
